@@ -114,6 +114,7 @@ func genC20(r *kernel.Rand) *kernel.Scenario {
 		if op == "fund" && r.Bool(0.6) {
 			// index into the distinct ledgers in first-occurrence order; sometimes past the end
 			st.A["ego"] = int64(r.Intn(len(distinct) + 1))
+			st.A["ego_first"] = int64(kernel.Derive(uint64(i), "ego-first", int64(st.A["ego"]), int64(n)) % 2)
 		}
 		sc.Steps = append(sc.Steps, st)
 		for _, l := range distinct {
